@@ -106,6 +106,10 @@ def run(ctx):
         ctx.count(origin, label if nontriv else None)
         if len(ctx.samples) < 6 and nontriv:
             ctx.sample({"input": label[:200], "container": f[:5]})
+        if f[0] in ("STACKOVERFLOW", "HANG", "ABORT"):
+            # the ORACLE (the extracted container parser) gave up on a very large file: not a statement about the implementation
+            ctx.dist["oracle_unavailable:" + f[0]] = ctx.dist.get("oracle_unavailable:" + f[0], 0) + 1
+            continue
         if f[0] != "OK":
             ctx.oracle_fail("bytes are not a well-formed SMF container (%s)" % f[0], line[:2000], r[:300], "OK", input_text=label)
         elif int(f[2]) != nt or int(f[4]) != nt:
